@@ -46,7 +46,7 @@ for cdir in sorted(glob.glob(os.path.join(root, "out-*", "[0-9]"))):
         else:
             print(cid, "silent")
             if install:
-                dst = os.path.join("/verif/seeded", "benign-" + cid)
+                dst = os.path.join("/verif/seeded", "benign-" + os.environ.get("SEED_TAG", "") + cid)
                 os.makedirs(dst, exist_ok=True)
                 shutil.copy(patch, os.path.join(dst, "patch.diff"))
                 for f in ("check.py",):
